@@ -13,7 +13,10 @@ use refmodel::secp::Curve;
 const P: &str = "C18";
 #[derive(Clone)]
 struct Case { prefix: String, jobs: &'static str, sel: usize, len: usize, build: Build, smoke: bool }
-const SELS: [(&str, &[&str]); 4] = [("default", &[]), ("password", &["--vanity-password", "pa\u{df} w\u{f6}rd \u{ff11}"]), ("account-index", &["--vanity-account-index", "3"]), ("hd-path", &["--vanity-hd-path", "m/0'/1"])];
+const SELS: [(&str, &[&str]); 8] = [("default", &[]), ("password", &["--vanity-password", "pa\u{df} w\u{f6}rd \u{ff11}"]), ("account-index", &["--vanity-account-index", "3"]), ("hd-path", &["--vanity-hd-path", "m/0'/1"]),
+    ("password+account-index", &["--vanity-password", "pa\u{df} w\u{f6}rd \u{ff11}", "--vanity-account-index", "3"]), ("password+hd-path", &["--vanity-hd-path", "m/0'/1", "--vanity-password", "pa\u{df} w\u{f6}rd \u{ff11}"]),
+    // account options of the OTHER commands in the environment must not influence the search
+    ("default+env-noise", &["ENV:PASSWORD=not-the-vanity-password", "ENV:ACCOUNT_INDEX=5", "ENV:HD_PATH=m/9"]), ("account-index+env-noise", &["--vanity-account-index", "3", "ENV:PASSWORD=x", "ENV:HD_PATH=m/9", "ENV:MNEMONIC=abandon abandon abandon abandon abandon abandon abandon abandon abandon abandon abandon about"])];
 
 pub fn run(ctx: &Ctx) {
     let curve = Curve::new(); let mut cases: Vec<Case> = Vec::new();
@@ -26,11 +29,12 @@ pub fn run(ctx: &Ctx) {
     for p in ["0x3", "0xE", "0x4b"] { for j in ["0", "1"] { cases.push(Case { prefix: p.into(), jobs: j, sel: 0, len: 24, build: Build::Release, smoke: false }); cases.push(Case { prefix: p.into(), jobs: j, sel: 2, len: 24, build: Build::Release, smoke: false }); } }
     for len in [15usize, 18, 21] { cases.push(Case { prefix: "0xb".into(), jobs: "1", sel: 0, len, build: Build::Release, smoke: false }); }
     // free-running smoke runs (sampling of schedules; the oracle holds under every schedule)
+    for p in ["0x2", "0xd"] { cases.push(Case { prefix: p.into(), jobs: "", sel: 0, len: 12, build: Build::Release, smoke: true }); } // no -j: the default worker count
     for j in ["2", "16"] { for p in ["0x1", "0xA", "0xe7", "0xB3"] { cases.push(Case { prefix: p.into(), jobs: j, sel: 0, len: 12, build: Build::Release, smoke: true }); cases.push(Case { prefix: p.into(), jobs: j, sel: 3, len: 24, build: Build::Release, smoke: true }); } }
     ctx.sweep("vanity-search", "all 22 one-digit prefixes x -j {0,1} (+ checked build), two-digit prefixes (16 in quick, all 484 case combinations in thorough), three-digit boundary prefixes, vanity password / account index / path, lengths 12..24; scripted entropy stream; multi-threaded runs are labelled smoke", cases.len() as u64, |i| {
         let c = &cases[i as usize]; let (sname, sargs) = SELS[c.sel];
-        let mut cmd = Cmd::new(&["new", "-n", &c.len.to_string(), "--vanity-prefix", &c.prefix, "-j", c.jobs]).timeout(if c.prefix.len() > 4 { 240 } else { 90 });
-        for a in sargs { cmd = cmd.arg(a); }
+        let mut cmd = Cmd::new(&["new", "-n", &c.len.to_string(), "--vanity-prefix", &c.prefix]).timeout(if c.prefix.len() > 4 { 900 } else { 300 }); if !c.jobs.is_empty() { cmd = cmd.arg("-j").arg(c.jobs); }
+        for a in sargs { if let Some(kv) = a.strip_prefix("ENV:") { let (k, v) = kv.split_once('=').unwrap(); cmd = cmd.env(k, v); } else { cmd = cmd.arg(a); } }
         let (r, reqs, full) = run_shimmed(&cmd, c.build, &Mode::Stream { seed: 5000 + i, fail_at: None }, "vanity-search", i);
         let body = &c.prefix[2..]; let case_kind = if body.chars().any(|x| x.is_ascii_uppercase()) { if body.chars().any(|x| x.is_ascii_lowercase()) { "mixed-case" } else { "upper-case" } } else if body.chars().any(|x| x.is_ascii_lowercase()) { "lower-case" } else { "numeric" };
         let shape = format!("digits={},{case_kind},j={},{sname},len={}{}", body.len(), c.jobs, c.len, if c.smoke { ",smoke" } else { "" });
@@ -42,8 +46,8 @@ pub fn run(ctx: &Ctx) {
         if !r.ok() { ctx.violation(format!("{P}:vanity:{sig}:refused"), format!("a hexadecimal prefix is refused: {}", r.describe()), replay); return; }
         let line = r.line(); let toks: Vec<&str> = line.split(' ').collect();
         let nib = match classify_prefix(&c.prefix) { Class::Accept(n) | Class::Unc(n) => n, Class::Reject => unreachable!() };
-        let path = match sname { "account-index" => default_path(3), "hd-path" => match classify_path("m/0'/1") { Class::Accept(p) => p, _ => unreachable!() }, _ => default_path(0) };
-        let pass = if sname == "password" { "pa\u{df} w\u{f6}rd \u{ff11}" } else { "" };
+        let path = match sname { "account-index" | "password+account-index" | "account-index+env-noise" => default_path(3), "hd-path" | "password+hd-path" => match classify_path("m/0'/1") { Class::Accept(p) => p, _ => unreachable!() }, _ => default_path(0) };
+        let pass = if sname.starts_with("password") { "pa\u{df} w\u{f6}rd \u{ff11}" } else { "" };
         match bip39::tokens_to_entropy(&toks) {
             Err(e) => ctx.violation(format!("{P}:vanity:{sig}:invalid-phrase"), format!("printed {:?}: {e:?}", trunc(&line, 200)), replay),
             Ok(ent) => {
